@@ -6,7 +6,9 @@ import ast
 from engine.cfg import decompose
 from engine.effects import walk_stmts
 from engine.facts import calls_in
-from engine.loader import norm
+from engine.loader import AnalysisError, norm
+
+P = "param.parameterized."
 
 CONSUMERS = ["__getitem__", "__iter__", "__contains__", "__dir__", "objects", "_setup_params", "__getattr__"]
 PARAMETERS = "param.parameterized.Parameters"
@@ -293,3 +295,63 @@ def run(ctx):
     # model-level rule, run last
     from checks import namespace_model
     namespace_model.report(ctx, "R13.h")
+    ctx.rule("R13.x", "the instance-level lookup follows the class: Parameters.objects('existing') interpreted twice on one instance (its private namespace built by the real "
+                      "_InstancePrivate.__init__) with the class-level lookup changed in between returns the class-level Parameters as they are at each call, overlaid with the instance's own", floor=1)
+    existing_objects_follow_the_class(ctx, "R13.x")
+
+
+def existing_objects_follow_the_class(ctx, rule):
+    """Parameters.objects('existing') -- the lookup behind .param.values(), repr, serialization and pprint of an instance --
+    interpreted TWICE on one initialised instance that owns one per-instance Parameter object (the instance's private
+    namespace is built by interpreting _InstancePrivate.__init__, so every slot it really has exists), with the class-level
+    lookup changed in between (a Parameter added to an ancestor; a per-class copy installed by a class-level set).
+
+    Specification: each call merges the class-level lookup AS IT IS NOW with the instance's own Parameter objects."""
+    from engine.absint import Interp, Obj, Unsupported
+    f = ctx.repo.func(P + "Parameters.objects")
+    init = ctx.repo.func(P + "_InstancePrivate.__init__")
+    own_x = Obj("instance_copy_of_Parameter_x")
+    priv = Obj("instance_private")
+    it0 = Interp(ctx.hier, inline_module_functions=True)
+    try:
+        outs = it0.run_all(init, {init.params[0]: priv, "initialized": True, "params": {"x": own_x}})
+    except Unsupported as e:
+        raise AnalysisError("%s: absint cannot interpret _InstancePrivate.__init__: %s" % (rule, e))
+    if len(outs) != 1 or outs[0].imprecise or outs[0].kind != "return":
+        raise AnalysisError("%s: _InstancePrivate.__init__ is not interpretable precisely" % rule)
+    px, py = Obj("class_Parameter_x"), Obj("class_Parameter_y")
+    py2, pz = Obj("per_class_copy_of_Parameter_y"), Obj("Parameter_z_added_to_an_ancestor")
+    inst = Obj("instance", _param__private=priv)
+    ns = Obj("instance_namespace", self=inst, self_or_cls=inst, cls=Obj("Cls"), _cls_parameters={"x": px, "y": py})
+
+    def hook(fn, args, kwargs):
+        if fn == "getattr" and len(args) in (2, 3) and isinstance(args[0], Obj) and isinstance(args[1], str):
+            return args[0].attrs.get(args[1], args[2] if len(args) == 3 else None)
+        if fn == "len" and len(args) == 1 and isinstance(args[0], dict):
+            return len(args[0])
+        return NotImplemented
+    results = []
+    for step in (1, 2):
+        it = Interp(ctx.hier, dyn=P + "Parameters", inline=lambda m: False, call_hook=hook)
+        try:
+            outs = it.run_all(f, {f.params[0]: ns, "instance": "existing"})
+        except Unsupported as e:
+            raise AnalysisError("%s: absint cannot interpret Parameters.objects: %s" % (rule, e))
+        if len(outs) != 1 or outs[0].imprecise or outs[0].kind != "return" or not isinstance(outs[0].value, dict):
+            raise AnalysisError("%s: Parameters.objects('existing') is not interpretable precisely (%s)" % (rule, outs[0].notes[:2] if outs else "no outcome"))
+        results.append(dict(outs[0].value))
+        ns.attrs["_cls_parameters"] = {"x": px, "y": py2, "z": pz}       # the class hierarchy changes between the two reads
+    ctx.abstract_cases += 2
+    want1, want2 = {"x": own_x, "y": py}, {"x": own_x, "y": py2, "z": pz}
+    def same(a, b):
+        return set(a) == set(b) and all(a[k] is b[k] for k in b)
+    if not same(results[0], want1):
+        ctx.fail(rule, f, f.node, "objects('existing') of an instance with its own copy of x gives %s, specification {x: the instance's copy, y: the class-level Parameter}" % sorted(results[0]),
+                 key=f.qualname + "::existing-lookup")
+    elif not same(results[1], want2):
+        ctx.fail(rule, f, f.node, "objects('existing') read again after the class hierarchy changed (a Parameter z added to an ancestor, y replaced by a per-class copy) still gives %s%s: values(), repr, "
+                                  "serialization and pprint of the instance miss the new Parameter although getattr reaches it, and report against the replaced Parameter object" % (
+                                      sorted(results[1]), "" if "y" not in results[1] or results[1]["y"] is py2 else " with the OLD object for y"), key=f.qualname + "::existing-lookup-stale",
+                 input="p.x = 1; p.param.values(); A.param.add_parameter('z', Number(3)) -> 'z' missing from p.param.values() and repr(p)")
+    else:
+        ctx.ok(rule, f, f.node, "objects('existing') merges the class-level lookup as it is at every call with the instance's own Parameter objects")
